@@ -112,3 +112,19 @@ Theorem C05_route_current : forall title sec l,
 Proof. exact route_pin. Qed.
 Print Assumptions C05_section_type_current.
 Print Assumptions C05_route_current.
+
+(* ---- the steering block is the Python's ---------------------------------------------------------------
+   update_steering equals the block of LASFile.read that lets a section's items update the provisional
+   VERS / WRAP / DLM / NULL values, re-translated on every run from /repo (translators/funcs.py -> Gen/Funcs.v:
+   py_update_steering; the membership test and the attribute access go through the translated
+   SectionItems.__contains__ / __getitem__): only a title whose second character is V / v lets VERS, WRAP, DLM
+   through, only W / w lets NULL through.  ssection_of / sitem_of (Proofs/FuncsPinSteering.v) show the model's
+   section as the object the translated code reads (values wrapped in Some: the provisional NULL may be None). *)
+Require Import FuncsPinSteering.
+Theorem C05_steering_current : forall title sec ps,
+  py_update_steering title (ssection_of sec) (Some (p_version ps)) (Some (p_wrapped ps)) (p_null ps) (Some (p_dlm ps))
+  = option_map (fun letter => let ps' := update_steering letter sec ps in
+                              (Some (p_version ps'), Some (p_wrapped ps'), p_null ps', Some (p_dlm ps')))
+               (second_upper title).
+Proof. exact steering_pin. Qed.
+Print Assumptions C05_steering_current.
